@@ -1,15 +1,33 @@
 (* C18 - Destroying all objects releases every descriptor, mapping, temp file, allocation.
-   The ledger model assigns every kind of object its footprint in process-level
-   resources (descriptors, file mappings, temporary files, result-handler threads).
-   PROVED (T18a): for every history of create / update / destroy operations in which
-   every created object is eventually destroyed, the ledger is empty.  That statement is
-   true by the construction of the model; what carries the weight is the correspondence:
-   engine lk runs well-formed API histories on the real library and compares, after
-   every operation, the model's ledger with /proc/self/fd, the file-backed entries of
-   /proc/self/maps, the listing of the sorter temp directory and the thread count, and at
-   the end the heap (two identical runs must not grow the allocator's in-use bytes). *)
+   Two models.
+   (1) OPERATIONAL (model/ResCore.v, ResT1.v, ResSorter.v, ResFileset.v, Resources.v): every API entry point -
+   writer, reader, iterators of every kind, merger, sorter with its spill (mkstemp, unlink, writer on the
+   descriptor, sort + fold with a merge callback that may FAIL, reader_init_fd, close; pooled: the chunk job
+   completes later), mtbl_sorter_iter / _write / _destroy at any point of the life cycle, fileset init / dup /
+   reload / reload_now / iterators / destroy, thread pools and result handlers - is a function written by reading the
+   C function top to bottom and recording every acquisition and release IN ORDER, with its failure branches and
+   early returns; environment-dependent outcomes (the file is / is not a table, open fails, the merge callback
+   fails, which setfile lines exist) are parameters of the operation.  Resources: descriptors, mappings, temporary
+   files, threads, and heap objects by allocation site (39 kinds).
+   PROVED: T18_all_destroyed_clean - for EVERY history of API operations, with every combination of outcomes,
+     once every object is destroyed no resource of any kind remains (via the invariant: for every object and
+     kind, the live count equals the footprint of the object's abstract state; each operation's event list is
+     checked to change the live set exactly by the change of footprint - a forgotten close on one path makes
+     that lemma false);
+   T18_all_destroyed_obs - then descriptors, mappings, temp files, threads and live heap objects are all 0;
+   T18_no_double_release - no history closes / frees / unmaps / joins something that is not live;
+   T18_pinned_refuted - the sorter code as it was before the four repairs (descriptor of a chunk never closed;
+     leak when the merge callback fails in a chunk; merger options leaked when the final flush fails; readers
+     freed before the result handler is joined), run in the same model, violates the theorem - each with a
+     concrete history.
+   (2) FOOTPRINTS (model/Ledger.v): the static footprint per object kind that engine lk compares with
+   /proc/self/fd, /proc/self/maps, the temp directory and the thread count after EVERY step of its scenarios on
+   the real library, and with the allocator at the end (T18a_* below).
+   Tie of (1) to the code: the statement-level source ties of the C functions it follows (props/Ties_C18.v); its
+   footprints agree with (2) on the computed histories of proofs/ResourceExamples.v. *)
 From Coq Require Import NArith List Lia.
-From Mtbl Require Import model.Bytes model.Ledger.
+From Mtbl Require Import model.Bytes model.Ledger model.ResCore model.ResT1 model.ResSorter model.ResFileset model.Resources model.ResFaults
+  proofs.ResourceProofs proofs.ResourcePinned proofs.ResourceNoFault proofs.ResourceExamples.
 (* source ties: the statements of the C functions the model follows (gen/Ties.v is regenerated from /repo on every run) *)
 From Mtbl Require props.Ties_C18.
 Local Open Scope N_scope.
@@ -46,3 +64,31 @@ Example T18_example :
     = mkled 1 4 0 1 /\
   ledger (lrun [LCreate 1 (KSorter false 0); LUpdate 1 (KSorter false 3); LCreate 2 (KWriter true); LDestroy 1; LDestroy 2]) = led0.
 Proof. split; reflexivity. Qed.
+
+(* ---- the operational model ------------------------------------------------------------------------- *)
+Theorem T18_all_destroyed_clean : forall ops,
+  wf_history ops = true -> all_destroyed (rrun ops) -> live (rrun ops) = [].
+Proof. exact all_destroyed_clean. Qed.
+Print Assumptions T18_all_destroyed_clean.
+
+Theorem T18_all_destroyed_obs : forall ops,
+  wf_history ops = true -> all_destroyedb (rrun ops) = true ->
+  obs (rrun ops) = (0, 0, 0, 0) /\ heap_live (rrun ops) = 0.
+Proof. exact all_destroyed_obs. Qed.
+Print Assumptions T18_all_destroyed_obs.
+
+Theorem T18_no_double_release : forall ops, run_faults ops = 0.
+Proof. exact no_release_of_dead_resource. Qed.
+Print Assumptions T18_no_double_release.
+
+(* the code before the repairs 7721227, 541a3d1, 650dd74, 6dca6c0, each switched off alone, and all together *)
+Theorem T18_pinned_refuted :
+  ~ clean_v (mkv false true true true) /\ ~ clean_v (mkv true false true true) /\
+  ~ clean_v (mkv true true false true) /\ ~ clean_v (mkv true true true false) /\
+  ~ clean_v (mkv false false false false) /\ clean_v v_current.
+Proof.
+  split; [exact spill_noclose_pinned_refuted|]. split; [exact spill_mergefail_pinned_refuted|].
+  split; [exact sorter_iter_pinned_refuted|]. split; [exact sorter_destroy_pinned_refuted|].
+  split; [exact pinned_tree_refuted|exact clean_current].
+Qed.
+Print Assumptions T18_pinned_refuted.
